@@ -12,7 +12,7 @@ Operations (node ids are creation indices):
     ["unregister", n, mid]
     ["use", n]                                first use of n (a probe call)
 
-mspec: {"mid", "t": class name, "kind": leaf|walk_list|map_list|nest_list|walk_tuple|wrap|self_list, "prio"}
+mspec: {"mid", "t": class name, "kind": leaf|walk_list|map_list|deep_list|nest_list|walk_tuple|wrap|self_list, "prio"}
 
 Model of one node: ordered parents, linkback flag, own = stack of mids per signature
 (signature = (type name, priority)); the effective table overlays the parents' tables in mixin
@@ -83,6 +83,12 @@ class Graph:
                     f"else [recurse(e) for e in x])")
         elif kind == "walk_list":
             body = f"return ['L{mid}'] + [recurse(e) for e in x]"
+        elif kind == "deep_list":   # the only use of recurse sits two or more scopes below the method body
+            if mid % 2:
+                body = (f"def inner(ys):\n        return list(recurse(y) for y in ys)\n"
+                        f"    return ['D{mid}'] + inner(x)")
+            else:
+                body = f"return ['D{mid}'] + (lambda ys: (lambda: [recurse(y) for y in ys])())(x)"
         elif kind == "walk_tuple":
             body = f"return ('T{mid}',) + tuple(recurse(e) for e in x)"
         elif kind == "wrap":
@@ -198,6 +204,8 @@ class Graph:
             return [f"L{mid}"] + [self.ev(n, e) for e in v]
         if kind == "map_list":
             return [f"M{mid}"] + [self.ev(n, e) for e in v]
+        if kind == "deep_list":
+            return [f"D{mid}"] + [self.ev(n, e) for e in v]
         if kind == "walk_tuple":
             return (f"T{mid}",) + tuple(self.ev(n, e) for e in v)
         if kind == "wrap":
